@@ -673,6 +673,152 @@ def samename_cases():
     return out, groups
 
 
+# ------------------------------------------------------------------------------------------
+# DEFAULT VALUES of parameters.  A default value couples the class to another class only through an INSTANTIATION written in it
+# (p: T = Dep(), p=lambda: Dep()); a bare name, an attribute chain, a subscript, an operator expression, a display or a lambda
+# that merely READ names (p: int = DEFAULT_TIMEOUT, mode: Mode = Mode.FAST, p: T = ImportedClass, p: int = TABLE[KEY],
+# p: int = A | B ...) name no class as base / annotation / instantiation: Class/CBO.v has no mention for them (an attribute read
+# is KAttr -> no class), so they are written into the .py text only and the class term handed to Coq carries the annotation of the
+# parameter (and the instantiation, as a PMethodDefault mention, when the default holds one).  Full cross: host of the def
+# (method, __init__, static / class / async method, helper nested in a method, method of a nested class) x kind of the parameter
+# (positional-only, ordinary, keyword-only; beside *args: T / **kw: T / bare * / untyped and literal-default neighbours) x value
+# form, the annotation of the parameter rotating over none / built-in / project class / generic / union / string, thresholds
+# placed at / next to the true count.  One class per host carries every value form at once.
+# ------------------------------------------------------------------------------------------
+TD_HOSTS = ["method", "init", "static", "classmethod", "async", "nested-def", "nested-class"]
+TD_KINDS = ["posonly", "plain", "kwonly"]
+# (label, text, names that the text needs imported as project classes, is the annotation forced to the class Mode?)
+TD_VALUES = [("const-upper", "DEFAULT_TIMEOUT", [], False), ("const-lower", "default_timeout", [], False), ("camel-unbound", "Sentinel", [], False),
+             ("imported-class-as-value", "ValCls", ["ValCls"], False), ("local-class-as-value", "Other", [], False), ("own-class-as-value", "K", [], False),
+             ("enum-member-of-annotation", "Mode.FAST", ["Mode"], True), ("enum-member", "Color.RED", ["Color"], False),
+             ("attribute-chain", "cfg.limits.MAX", [], False), ("self-like-attribute", "settings.timeout", [], False),
+             ("subscript", "TABLE[KEY]", [], False), ("subscript-of-class", "ValCls[Item]", ["ValCls", "Item"], False),
+             ("bitor", "FLAG_A | FLAG_B", [], False), ("bitor-of-classes", "ValCls | Item", ["ValCls", "Item"], False), ("negated", "-LIMIT", [], False),
+             ("sum", "BASE + STEP", [], False), ("tuple", "(TA, TB)", [], False), ("list", "[LA]", [], False), ("dict", "{KA: VA}", [], False),
+             ("ternary", "AA if BB else CC", [], False), ("lambda-name", "lambda: LamV", [], False), ("lambda-attribute", "lambda a=DEF_A: Reg.handler", [], False),
+             ("starred-in-tuple", "(*BASES, Last)", [], False), ("comparison", "LEVEL >= Debug.LEVEL", [], False),
+             ("instantiation", "$D()", None, False), ("lambda-instantiation", "lambda: $D()", None, False), ("instantiation-with-name-args", "$D(Conf.X, key=KEY)", None, False)]
+TD_ANNS = ["none", "builtin", "class", "generic", "union-none", "string", "generic2"]
+
+
+def td_ann(which):
+    r = ("ref", ("", "AnnT"))
+    return {"none": None, "builtin": ("ref", ("", "int")), "class": r, "generic": ("gen1", "List", r), "union-none": ("union", r, ("none",)),
+            "string": ("str",), "generic2": ("gen2", "Dict", ("ref", ("", "str")), r)}[which]
+
+
+def td_signature(kind, k, ann, value):
+    """[(prefix, name, ty or None, default text or None)] in source order; prefix: "" | "*" | "**" | "/" | "*bare" separators"""
+    sig = ("ref", ("", "Sig"))
+    target = ("", "p1", ann, value)
+    lit = ["None", "0", "\"x\"", "()", "3.5", "True"][k % 6]
+    star = [("*", "args", ("ref", ("", "ArgsT")), None)] if k % 2 else []
+    kw = [("**", "kw", ("ref", ("", "KwT")), None)] if k % 3 else []
+    if kind == "posonly":
+        ps = [("", "p0", sig, None), target, ("/", None, None, None), ("", "p2", None, lit)] + star + kw
+    elif kind == "plain":
+        ps = [("", "p0", sig, None)] + ([("/", None, None, None)] if k % 2 == 0 else []) + [target, ("", "p2", ("ref", ("", "int")), lit)] + star + kw
+    else:
+        ps = [("", "p0", sig, None)] + (star or [("*bare", None, None, None)]) + ([("", "k0", ("ref", ("", "str")), lit)] if k % 4 < 2 else []) + [target] \
+             + ([("", "k2", None, None)] if k % 4 == 1 else []) + kw
+    return ps
+
+
+def td_sig_src(ps, rcv):
+    out = [rcv] if rcv else []
+    for prefix, name, ty, default in ps:
+        if prefix == "/":
+            out.append("/")
+        elif prefix == "*bare":
+            out.append("*")
+        else:
+            t = prefix + name + ((": " + cg.ty_src(ty)) if ty else "")
+            if default is not None:
+                t += (" = " if ty else "=") + default
+            out.append(t)
+    return ", ".join(out)
+
+
+def td_class(host, sigs, k):
+    """sigs: [(ps, [body mentions])] one def per entry.  Returns (source lines of class K's body, members for Class/CBO.v)"""
+    lines, members = ["field: FieldT", ""], [("attr", "field", ("ref", ("", "FieldT")))]
+    for j, (ps, body) in enumerate(sigs):
+        tys = [ty for prefix, name, ty, default in ps if name]
+        md = dict(name="run%d" % j, decos=[], params=tys, ret=None, body=list(body))
+        rcv, pre, ind, is_async = "self", [], "", False
+        if host == "init":
+            md["name"] = "__init__" if j == 0 else "setup%d" % j
+        elif host == "static":
+            md["decos"], rcv = ["staticmethod"], None
+        elif host == "classmethod":
+            md["decos"], rcv = ["classmethod"], "cls"
+        elif host == "async":
+            is_async = True
+        elif host == "nested-def":
+            own = [(("attr", "self", "state"), "PAssignTarget")] if (k + j) % 2 else []
+            hostmd = dict(name="step%d" % j, decos=[], params=[], ret=None, body=own)
+            pre, ind, rcv = ["def step%d(self):" % j] + (["    self.state = 1"] if own else []), "    ", None
+            md["name"] = "helper"
+            members.append(("method", hostmd))
+        elif host == "nested-class":
+            pre, ind = ["class Part%d:" % j], "    "
+        members.append(("method", md))
+        lines += pre + [ind + "@" + d for d in md["decos"]]
+        lines.append("%s%sdef %s(%s):" % (ind, "async " if is_async else "", md["name"], td_sig_src(ps, rcv)))
+        lines += [ind + "    return None", ""]
+    return lines, members
+
+
+def typed_default_cases():
+    import ast
+    out = []
+    k = 0
+
+    def build(host, sig_specs, k, tags):
+        """sig_specs: [(kind, ann label, value entry)]"""
+        imports, classes, sigs, names = [("from", "FieldT"), ("from", "Sig"), ("from", "AnnT")], ["Other"], [], {"FieldT"}
+        for j, (kind, annl, (vlabel, text, needs, force_mode)) in enumerate(sig_specs):
+            ann = ("ref", ("", "Mode")) if force_mode else td_ann(annl)
+            body = []
+            if needs is None:                                   # the default holds an instantiation
+                imps, cl, ref = form_ref(["from", "local", "mod", "fromas", "modas"][(k + j) % 5], "Dep", "K")
+                imports += [x for x in imps if x not in imports]
+                classes += [x for x in cl if x not in classes]
+                text = text.replace("$D", cg.cref_src(ref))
+                body = [(("inst", ref), "PMethodDefault")]
+                names.add(cg.cref_src(ref))
+            else:
+                imports += [("from", n) for n in needs if ("from", n) not in imports]
+            ps = td_signature(kind, k + j, ann, text)
+            names |= {r[1] for _, nm, ty, _ in ps if nm and ty for r in cg.ty_refs(ty) if r[1] not in ("int", "str")}
+            sigs.append((ps, body))
+        lines, members = td_class(host, sigs, k)
+        f = dict(imports=imports, classes=classes)
+        cnt = len(names)
+        thr = [(None, None), (cnt - 1, cnt), (cnt, cnt + 1), (cnt, cnt)][k % 4]
+        c = mk_case(f, dict(name="K", bases=[], members=members), "param-default", dict(tags, position="param-default", form="value", host=host, true_count=cnt),
+                    low=thr[0], med=thr[1])
+        c["src"] = cg.file_src(f, dict(name="K", bases=[], members=[])).rsplit("class K:", 1)[0] + "class K:\n" + "".join(("    " + l if l else "") + "\n" for l in lines)
+        ast.parse(c["src"])                                     # every generated text is valid Python
+        return c
+
+    for host in TD_HOSTS:
+        for kind in TD_KINDS:
+            for v in TD_VALUES:
+                k += 1
+                annl = TD_ANNS[k % len(TD_ANNS)]
+                out.append(build(host, [(kind, annl, v)], k, {"param_kind": kind, "value": v[0], "annotation": "Mode" if v[3] else annl}))
+        # every value form at once, over several defs of the class, every parameter kind
+        k += 1
+        specs = [(TD_KINDS[(k + i) % 3], TD_ANNS[(k + i) % len(TD_ANNS)], v) for i, v in enumerate(TD_VALUES)]
+        out.append(build(host, specs, k, {"param_kind": "all", "value": "all", "annotation": "all"}))
+    # typed against untyped: the same value once behind an annotation, once without
+    for v in TD_VALUES:
+        for annl in TD_ANNS:
+            k += 1
+            out.append(build(TD_HOSTS[k % len(TD_HOSTS)], [(TD_KINDS[k % 3], annl, v)], k, {"param_kind": TD_KINDS[k % 3], "value": v[0], "annotation": "Mode" if v[3] else annl}))
+    return out
+
 
 def threshold_cases():
     out = []
@@ -1224,6 +1370,9 @@ def main(tier):
     sn_cases, sn_groups = samename_cases()
     sn_groups = [[len(cases) + i for i in g] for g in sn_groups]
     cases += sn_cases
+    # default values of parameters: names / attribute chains / operator expressions read there are no couplings, instantiations are
+    td_cases = typed_default_cases()
+    cases += td_cases
     meta = []       # (base index, [variant indexes with relation])
     for _ in range(n_rand):
         f, c = rand_class(rng, allow_qualified=rng.random() < 0.5)
@@ -1389,6 +1538,11 @@ def main(tier):
                 "(import form rotates) in one coupling position (parameter annotation, return annotation - shape rotates -, default value, body instantiation at a rotating position / hidden in an argument, method call on the name, base class) "
                 "of the FIRST / MIDDLE / LAST def, the other defs bare / typed with classes of their own, in EVERY order of the members holding the defs, thresholds placed at / next to the count: "
                 "decided against Class/CBO.v (nested defs and nested-class methods flattened into methods of the class) and by the law that permuting the members leaves count, set and risk unchanged, "
+                "DEFAULT VALUES of parameters (7 hosts of the def: method, __init__, static / class / async method, helper nested in a method, method of a nested class x positional-only / ordinary / keyword-only parameter "
+                "beside *args: T / **kw: T / bare * / untyped and literal-default neighbours x 27 value forms: upper / lower / CamelCase constant name, imported / same-file / own class used as a VALUE, enum member of the annotation class and of another class, "
+                "attribute chain, subscript, a | b, unary, sum, tuple / list / dict / starred display, ternary, comparison, lambda reading a name / an attribute - none of them a coupling - and Dep(), lambda: Dep(), Dep(Conf.X, key=KEY) - an instantiation, import form rotating -; "
+                "annotation of the parameter rotating over none / built-in / project class / generic / union / string, and every value x every annotation once more; one class per host with all value forms at once; thresholds at / next to the true count): "
+                "the value is written into the .py text, Class/CBO.v gets the annotations and the instantiation only, the dependency set is compared exactly, "
                 "threshold lattice (0..10 dependencies x 10 threshold pairs), random classes (a quarter of the methods re-use the name of an earlier method) with 5 metamorphic variants each "
                 "(repeat, reorder, rename self, add unrelated, add one coupled class - also one living in another module and named like a built-in type), built-ins included (every position x built-in type; built-in function / local class in assignment-like positions), "
                 "positions outside Class/Syntax.v as Python templates (c14.EXTRA_POSITIONS that hold any expression: f-string in an implicit concatenation, yield from, except T as e, every `if` of a comprehension, typed defaults of a nested def, bases / keywords of a nested class, match guard, slices, await ...) x (local class, from-import) x (bare, hidden in an argument), decided against the ast.Call nodes of Python's own syntax tree, "
@@ -1400,7 +1554,7 @@ def main(tier):
                 "CLI runs (default, [cbo] thresholds, include_builtins = true, include_imports = false, [analysis] exclude_patterns matching class names); "
                 "distinct = distinct source texts",
         "input_distribution": dict(dist, position_table_probes=n_table, python_template_positions=n_extra, metamorphic_relations=n_meta, e2e_classes=n_e2e, subscript_forms=n_gen,
-                                   multifile_projects=len(projs), multifile_classes_checked=n_mf, samename_groups=len(sn_groups), samename_permutation_disagreements=n_perm_bad),
+                                   multifile_projects=len(projs), multifile_classes_checked=n_mf, samename_groups=len(sn_groups), param_default_cases=len(td_cases), samename_permutation_disagreements=n_perm_bad),
         "known_finding_cases": n_known,
         "model_mismatches": n_tie,
         "disagreements_checked": n_viol + n_tie + n_known,
